@@ -252,11 +252,24 @@ theorem OneO.parseIfd0 (tb : Tables) (r : R) (t : Tag) : OneO t (parseIfd0 tb r 
     · exact OneO.ok (One.upd (One.refl _) _)
     · exact OneO.ok (One.refl _)
 
-theorem OneO.parseTag (tb : Tables) (r : R) (t : Tag) : OneO t (parseTag tb r t) r := by
-  unfold Exif.parseTag
+theorem OneO.parseTag0 (tb : Tables) (r : R) (t : Tag) : OneO t (parseTag0 tb r t) r := by
+  unfold Exif.parseTag0
   have := OneO.parseIfd0 tb r t
   have := OneO.parseExifIfd r t
   have := OneO.parseGpsIfd r t
   repeat' (first | assumption | with_reducible apply OneO.ite | exact OneO.ok (One.refl _))
+
+theorem OneO.parseTag (tb : Tables) (r : R) (t : Tag) : OneO t (parseTag tb r t) r := by
+  intro r' h
+  unfold Exif.parseTag at h
+  cases hx : Exif.parseTag0 tb r t with
+  | ok r0 =>
+    rw [hx] at h; simp only [Outcome.bind, Outcome.ok.injEq] at h; rw [← h]
+    rcases OneO.parseTag0 tb r t r0 hx with hs | ⟨hs, hr⟩
+    · exact Or.inl ⟨hs.rest, hs.po, hs.exl, hs.buffered, hs.tags, hs.pos, hs.reads⟩
+    · exact Or.inr ⟨⟨hs.rest, hs.po, hs.exl, hs.buffered, hs.tags, hs.pos, hs.reads⟩, hr⟩
+  | err k => rw [hx] at h; simp [Outcome.bind] at h
+  | panic p => rw [hx] at h; simp [Outcome.bind] at h
+  | fuel => rw [hx] at h; simp [Outcome.bind] at h
 
 end Imeta.Exif
